@@ -176,6 +176,19 @@ CHECKS = {
         'RecursionError.',
         'Trusts: PyYAML\'s serializer to emit the anchors (verified by composing back); structural equality of generated classes.',
         'DESIGN.md 3 C18'),
+    'C17': (
+        'exhaustive enumeration of (class model x valid document x corruption site x corruption operator); the positions and '
+        'key names in each RecognitionError of the real load function are compared with the marks of the corrupted node',
+        'Strong claim: for every hierarchy-free model of the catalogue and every valid document (block style) every '
+        'single-point corruption - a scalar of every other kind at each value scalar, an unknown enum member, each key '
+        'misspelt, each key dropped, a key added to each mapping - that is rejected must cite the line of the corrupted '
+        'node, of its key or of the start of the enclosing mapping, and name the unknown/missing key of a class mapping. '
+        'Weak claim: every RecognitionError seen for any model (hierarchies, unions, discriminating and permissive '
+        'recognisers, node-rewriting savorize, raising constructors and hooks) on any document of D(T), empty documents '
+        'included, cites at least one position and only positions inside the document.',
+        'Trusts: the "line N, column M" pattern; marks of PyYAML\'s composer for the corrupted text. Hooks that install '
+        'hand-made nodes without marks are outside the claim.',
+        'DESIGN.md 3 C17'),
 }
 
 NOT_BUILT = {}
